@@ -91,16 +91,22 @@ where
             }
 
             match handle.as_mut().poll_next(cx) {
-                Poll::Ready(Some(sock)) => match sock {
-                    Socket::Stream(st) => {
-                        stream.as_mut().insert(*next_stream_id, st);
-                        *next_stream_id += 1;
+                Poll::Ready(Some(sock)) => {
+                    match sock {
+                        Socket::Stream(st) => {
+                            stream.as_mut().insert(*next_stream_id, st);
+                            *next_stream_id += 1;
+                        }
+                        Socket::Sink(si) => {
+                            sink.as_mut().insert(*next_sink_id, si);
+                            *next_sink_id += 1;
+                        }
                     }
-                    Socket::Sink(si) => {
-                        sink.as_mut().insert(*next_sink_id, si);
-                        *next_sink_id += 1;
-                    }
-                },
+
+                    // The channel only wakes us once it has answered Pending, so it must be
+                    // polled again before this future may park.
+                    continue;
+                }
                 // If handle is terminated, the stream is dead
                 Poll::Ready(None) => {
                     ready!(sink.as_mut().poll_flush(cx)).unwrap();
